@@ -84,39 +84,74 @@ def guarded(fn, *a):
         signal.signal(signal.SIGALRM, old)
 
 
+class Safe:
+    """The real semaphore behind a guard: every public call is bounded by the alarm.  A call
+    that waited has left the object wedged (or would wait again): every later call on it is
+    reported as waiting without being made.  Once the same kind of call -- same method, same
+    flag, same outcome of the call before it -- has waited three times it is taken to wait
+    again (3 s each would make the search and the shrinker crawl)."""
+
+    def __init__(self, sem):
+        self.sem, self.hung, self.last = sem, None, '-'
+
+    def _call(self, kind, fn, *a):
+        if self.hung:
+            raise Hang()
+        kind = f'{kind} after {self.last}'
+        if HANG_KINDS.get(kind, 0) >= 3:
+            self.hung = kind
+            raise Hang()
+        try:
+            return guarded(fn, *a)
+        except Hang:
+            HANG_KINDS[kind] = HANG_KINDS.get(kind, 0) + 1
+            HANGS_SEEN[0] += 1
+            self.hung = kind
+            raise
+
+    def current_count(self):
+        return self._call('current_count()', self.sem.current_count)
+
+    def acquire(self, tag, blocking=True):
+        return self._call(f'acquire(blocking={blocking!r}) at count {"0" if self.sem_count_zero else ">0"}',
+                          self.sem.acquire, tag, blocking)
+
+    def release(self, tag, token):
+        return self._call('release()', self.sem.release, tag, token)
+
+    sem_count_zero = False
+
+
 def do_op(utils, sem, o):
-    """One operation on the real object -> result letter.  A blocking acquire
+    """One operation on the real object (behind Safe) -> result letter.  A blocking acquire
     at count 0 is not executed (it would wait): reported as 'B' from the
     public current_count(); the threaded scenarios check the real waiting."""
+    try:
+        r = _do_op(utils, sem, o)
+    except Hang:
+        r = 'HANG'
+    sem.last = r[:1]
+    return r
+
+
+def _do_op(utils, sem, o):
     if o[0] in 'ab':
         blocking = o[0] == 'b'
-        if blocking and sem.current_count() == 0:
+        zero = sem.current_count() == 0
+        if blocking and zero:
             return 'B'
         try:
             # non-blocking is requested with False or with the equally valid falsy 0 (as the plain
             # counting semaphore and threading.Semaphore accept it), alternating by tag
             nb = 0 if o[1] % 2 else False
-            if blocking:
-                k = guarded(sem.acquire, o[1], True)
-            elif sem.current_count() == 0:
-                # must raise at once; a buggy version would WAIT here: bounded by the alarm.  Once the
-                # same kind of call (same flag value, zero capacity) has waited three times it is
-                # taken to wait again (3 s each would make the search oracle crawl).
-                if HANG_KINDS.get(repr(nb), 0) >= 3:
-                    return 'HANG'
-                try:
-                    k = guarded(sem.acquire, o[1], nb)
-                except Hang:
-                    HANG_KINDS[repr(nb)] = HANG_KINDS.get(repr(nb), 0) + 1
-                    raise
-            else:
-                k = sem.acquire(o[1], nb)
+            sem.sem_count_zero = zero
+            # at count 0 a non-blocking acquire must raise at once; a buggy version would WAIT here
+            k = sem.acquire(o[1], True if blocking else nb)
             return 'k' + hx(k) if isinstance(k, int) else f'k?{k!r}'
         except utils.NoResourcesAvailable:
             return 'N'
         except Hang:
-            HANGS_SEEN[0] += 1
-            return 'HANG'
+            raise
         except Exception as e:       # noqa: an exception the interface does not document
             return 'E' + type(e).__name__
     try:
@@ -124,8 +159,17 @@ def do_op(utils, sem, o):
         return 'O'
     except ValueError:
         return 'V'
+    except Hang:
+        raise
     except Exception as e:           # noqa: idem (e.g. a KeyError out of the bookkeeping)
         return 'E' + type(e).__name__
+
+
+def count_of(sem):
+    try:
+        return sem.current_count()
+    except Hang:
+        return None
 
 
 class Ghost:
@@ -175,14 +219,15 @@ def run_impl_S(case):
     cap, ops = case
     if HANGS_SEEN[0] >= 3:
         return 'SKIPPED'       # three operations already waited where none may: reported; the stream ends here
-    sem = utils.SlidingWindowSemaphore(cap)
+    sem = Safe(utils.SlidingWindowSemaphore(cap))
     g = Ghost()
     out = []
     for o in ops:
         r = do_op(utils, sem, o)
         g.on(o, r)
         out.append(r)
-    return (' '.join(out) + ' | ' + hx(sem.current_count()) + ' | ' + dump_state(sem) +
+    n = count_of(sem)
+    return (' '.join(out) + ' | ' + ('HANG' if n is None else hx(n)) + ' | ' + dump_state(sem.sem) +
             f' | wf={int(g.wf)} q={int(g.quiescent())}')
 
 
@@ -211,7 +256,7 @@ def oracle(cap, ops, second_pass=True):
     """C12 stated on the implementation's own behaviour for one history.
     Returns a list of (clause, text)."""
     utils = impl()
-    sem = utils.SlidingWindowSemaphore(cap)
+    sem = Safe(utils.SlidingWindowSemaphore(cap))
     g = Ghost()
     fails = []
     results = []
@@ -221,11 +266,15 @@ def oracle(cap, ops, second_pass=True):
             fails.append((clause, text))
 
     for i, o in enumerate(ops):
-        before = sem.current_count()
-        r = do_op(utils, sem, o)
-        after = sem.current_count()
-        results.append(r)
         where = f'op {i} ({op_str(o)}) of cap={cap} [{" ".join(op_str(x) for x in ops)}]'
+        before = count_of(sem)
+        r = do_op(utils, sem, o) if before is not None else 'HANG'
+        after = count_of(sem) if r != 'HANG' else None
+        results.append(r)
+        if before is None or (r != 'HANG' and after is None) or (r == 'HANG' and o[0] == 'r'):
+            fail('operation-never-returns', f'{where}: {sem.hung} did not return (the semaphore is wedged: every later '
+                                            f'operation on it waits for ever); results so far {results}')
+            return fails
         if r == 'HANG':
             if o[0] == 'a':
                 fail('nonblocking-acquire-waits', f'{where}: a NON-blocking acquire (flag {0 if o[1] % 2 else False!r}) waited at '
@@ -273,12 +322,12 @@ def oracle(cap, ops, second_pass=True):
     # rejected operations leave later behaviour unchanged: the history without them
     if second_pass and any(r in ('N', 'B', 'V') for r in results):
         keep = [j for j, r in enumerate(results) if r not in ('N', 'B', 'V')]
-        sem2 = utils.SlidingWindowSemaphore(cap)
+        sem2 = Safe(utils.SlidingWindowSemaphore(cap))
         res2 = [do_op(utils, sem2, ops[j]) for j in keep]
-        if res2 != [results[j] for j in keep] or sem2.current_count() != sem.current_count():
+        if res2 != [results[j] for j in keep] or count_of(sem2) != count_of(sem):
             fail('rejected-op-later-behaviour',
                  f'cap={cap} [{" ".join(op_str(x) for x in ops)}]: results {results}; without the rejected '
-                 f'operations the others give {res2}, final count {sem2.current_count()} vs {sem.current_count()}')
+                 f'operations the others give {res2}, final count {count_of(sem2)} vs {count_of(sem)}')
     return fails
 
 
@@ -537,12 +586,44 @@ THREAD_SCENARIOS = [
 ]
 
 
+class MainGuard:
+    """The main thread's calls on the real semaphore, each bounded by the alarm (helper
+    threads call the object itself: they are meant to wait)."""
+
+    def __init__(self, sem):
+        self.sem, self.doing = sem, None
+
+    def _call(self, what, fn, *a):
+        self.doing = what
+        r = guarded(fn, *a)
+        self.doing = None
+        return r
+
+    def acquire(self, tag, blocking=True):
+        return self._call(f'acquire({tag}, {blocking})', self.sem.acquire, tag, blocking)
+
+    def release(self, tag, token):
+        return self._call(f'release({tag}, {token})', self.sem.release, tag, token)
+
+    def current_count(self):
+        return self._call('current_count()', self.sem.current_count)
+
+
 def run_thread_scenario(ctx, name, cap, script, use_model=True):
     """Drive the real class with real threads; build the SemaConc schedule the
     observation corresponds to; compare.  Returns failure text or None."""
-    import time
     utils = impl()
-    sem = utils.SlidingWindowSemaphore(cap)
+    raw = utils.SlidingWindowSemaphore(cap)
+    sem = MainGuard(raw)
+    try:
+        return _run_thread_scenario(ctx, name, cap, script, use_model, utils, raw, sem)
+    except Hang:
+        return (f'{name}: {sem.doing} in the main thread did not return within 3 s although it never has to wait '
+                f'(script {script})')
+
+
+def _run_thread_scenario(ctx, name, cap, script, use_model, utils, raw, sem):
+    import time
     workers = {}
     labels, obs = [], []
 
@@ -556,7 +637,7 @@ def run_thread_scenario(ctx, name, cap, script, use_model=True):
                 obs.append('N')
             labels.append(f'N0:{hx(st[1])}')
         elif st[0] == 'spawn':
-            w = Worker(sem, st[2])
+            w = Worker(raw, st[2])
             workers[st[1]] = w
             w.th.start()
             if not w.blocked():
